@@ -174,7 +174,9 @@ func H04h() {
 	c := NewClassifier(0.8)
 	c.AddContent("License", "A", "a.txt", []byte("h\u00e9llo w\u00f6rld \u4e16\u754c licence"))
 	c.Match([]byte("caf\u00e9 \u00e9\u00e9\u00e9\u00e9 \U0001F600\U0001F600 \u00fc\u00fc"))
-	c.Normalize([]byte("\u00e9\u00e9\u00e9\u00e9\u00e9\u00e9 na\u00efve"))
+	// the call just before the probe leaves multi-byte text at every alignment in any reused buffer
+	prev := []string{"\u00e9\u00e9\u00e9\u00e9", "a\u00e9\u00e9\u00e9", "ab\u00e9\u00e9\u00e9", "a\u4e16\u754c\u4e16", "\u4e16\u754c\u4e16", "ab\U0001F600\U0001F600"}[vxChoice(6)]
+	c.Normalize([]byte(prev))
 	used := vxTokenizeBytes(x)
 	vxSameDoc("history-tokens", fresh, used, true)
 	r1 := c.Match(x)
